@@ -146,8 +146,12 @@ class BaseDB(object):
 
         self.lock.acquire()
         try:
-            usernames = self.db.keys()
+            # take a snapshot while holding the lock, the view returned by
+            # keys() must not be iterated while other threads modify the DB
+            usernames = list(self.db.keys())
         finally:
             self.lock.release()
-        usernames = [u for u in usernames if not u.startswith("--Reserved--")]
+        usernames = [u for u in usernames
+                     if not u.startswith(b"--Reserved--" if isinstance(u, bytes)
+                                         else "--Reserved--")]
         return usernames
